@@ -33,6 +33,8 @@ def stage_kind(name, t0, T=None):
         d = P.case(method="MS", N=2, M=2, rhs="nl", cons=[P.con("x_le"), P.con("bcf"), P.con("xt_le", grid="integrator", include_first=False)], obj=["integral"], T0=t0, TT=T or 1.05)
     elif name == "K":  # the horizon (not time) inside a boundary evaluation: clones use their own T
         d = P.case(method="MS", N=2, M=1, rhs="nl", cons=[P.con("x_le")], obj=["mayer_Tonly", "integral"], T0=t0, TT=T or 1.35)
+    elif name == "L":  # discrete-time model (set_next): a clone has to carry the update rule over to its own symbols
+        d = P.case(method="MS", N=3, M=1, intg="set_next", rhs="nl", cons=[P.con("x_le")], obj=["sum", "mayer_tf"], T0=t0, TT=T or 1.2)
     else:
         raise KeyError(name)
     return d
@@ -122,6 +124,11 @@ def cases(tier):
                         ini = [["x", "expr", "lin"], ["u", "const", -0.3]]
                         sd_["d"]["init"] = ini; sd_["tmpl_d"]["init"] = ini
                     out.append(dict(spec=sp, dev=list(names) + ["clone", "template_guess"]))
+    # a discrete-time stage (not in the stage alphabet of the lists above): alone, next to a continuous-time stage, twice
+    for names in (("L",), ("L", "A"), ("L", "L")):
+        for via in ("direct", "clone"):
+            n_ = len(names)
+            out.append(dict(spec=build(names, couplings(names)[1 if n_ >= 2 else 0], [via] * n_), dev=list(names) + [via, "discrete"]))
     # clones made WITHOUT t0= / T=: they keep the template's horizon declaration (fixed, free end time, both times free)
     # and the template's guesses of T / t0 / a time-dependent state guess
     for nm in ("A", "B", "D", "E"):
